@@ -208,6 +208,7 @@ def search_c01(seed, tier, only_modules=None, limit=5):
             for q in points(3, r, 1)[: (3 if tier == "quick" else 8)]:
                 mag = sum(float(x) ** 2 for x in q) ** 0.5
                 sp.append(q + [repr(mag * r.uniform(0.2, 0.8))])
+                sp.append(q + [repr(max(abs(float(q[2])) * 1.05, mag * 0.9))])      # spacelike with t > |z|: Mt2 > 0, no clamp involved
             for sig in C.SIGS[4]:
                 for p in sp:
                     for m in SPACELIKE_UNARY:
@@ -215,8 +216,8 @@ def search_c01(seed, tier, only_modules=None, limit=5):
                             continue
                         n += 1
                         a_ = {"m": m, "sig": list(sig), "p": p, "fl": "m" if m in MOM4 else "g"}
-                        if sig[-1] == "tau" and m == "Mt2":
-                            a_["known"] = "Mt2:spacelike:tau-storage"     # clamped at 0 in tau storage only (known finding)
+                        if sig[-1] == "tau" and m == "Mt2" and float(p[3]) ** 2 < float(p[2]) ** 2:
+                            a_["known"] = "Mt2:spacelike:tau-storage"     # t^2 - z^2 < 0: clamped at 0 in tau storage only (known finding)
                         run(c01_unary, a_, out, limit)
                     for m, args in (("scale", ["-1.3"] if sig[-1] == "t" else ["1.7"]), ("rotateY", ["2.9"]), ("rotate_quaternion", ["0.5", "0.1", "-0.7", "0.5"])):
                         n += 1
